@@ -1,5 +1,6 @@
 (* Broker/Run.v — histories: the broker run loop as a fold of [step] over a list of events, each
-   with the model inputs read off the implementation (fresh cookie, broker-side call serial), and
+   with the model inputs read off the implementation (fresh cookie; the broker-side call serial,
+   which the model computes itself and only compares), and
    the legality conditions on those inputs that the theorems assume. *)
 From stdpp Require Import gmap list.
 From RecordUpdate Require Import RecordSet.
@@ -18,12 +19,17 @@ Definition cookies_in_use (s : state) : gset uuid :=
    - Uuid::new_v4 yields a cookie that is not in use (and differs from the uuids clients chose
      is not needed: cookies and uuids live in different maps);
    - ConnectionId's are never reused for a new connection;
-   - the broker-side serial, when visible, is not the serial of a live call;
-   - wire-level ranges: capacities and serials are u32 *)
+   - fewer than 2^32 calls are pending (otherwise SerialMap::insert would not terminate; the
+     model's allocator then succeeds, SerialProofs.sm_choice_is_Some), and the broker-side serial
+     read off the implementation's trace, when visible, is the one the model's allocator
+     [sm_choice] picks in this state (the call handler runs on the pre-step state [s]; no other
+     handler looks at [i_bserial]);
+   - wire-level ranges: capacities are u32 *)
 Definition legal (s : state) (i : input) : Prop :=
   i_fresh i ∉ cookies_in_use s /\
   (match i_ev i with NewConnection c _ => conns s !! c = None | _ => True end) /\
-  (match i_bserial i with Some b => calls s !! b = None /\ b <= u32_max | None => True end) /\
+  (N.of_nat (size (calls s)) < 4294967296 /\
+   match i_bserial i with Some b => exists nxt, sm_choice s = Some (b, nxt) | None => True end) /\
   (match i_ev i with
    | Message _ (CreateChannel _ (CReceiver cap)) | Message _ (ClaimChannelEnd _ _ (CReceiver cap))
    | Message _ (AddChannelCapacity _ cap) => cap <= u32_max
